@@ -18,15 +18,15 @@ Proof. intros (ops0 & ->). exists (ops0 ++ ops). rewrite run_app. reflexivity. Q
 
 (* the interface, in the form "for every reachable state of the connection" *)
 Lemma I_send s x : reach s -> lost s = false ->
-  exists c, ch_oh (fst (step s (Send x false))) = ch_oh s ++ [MyRef c false] /\ In (c, x) (o_alloc (ow (fst (step s (Send x false))))) /\
+  exists c w, ch_oh (fst (step s (Send x false))) = ch_oh s ++ [MyRef c false w] /\ In (c, x) (o_alloc (ow (fst (step s (Send x false))))) /\
             lost (fst (step s (Send x false))) = false.
 Proof.
-  intros (ops & ->) Hl. destruct (send_names_object ops x false Hl) as (c & A & B). exists c. repeat split; auto.
+  intros (ops & ->) Hl. destruct (send_names_object ops x false Hl) as (c & w & A & B). exists c, w. repeat split; auto.
   apply lost_preserved; [exact Hl | discriminate].
 Qed.
-Lemma I_deliver s c x rest : reach s -> lost s = false -> ch_oh s = MyRef c false :: rest -> In (c, x) (o_alloc (ow s)) ->
+Lemma I_deliver s c x w rest : reach s -> lost s = false -> ch_oh s = MyRef c false w :: rest -> In (c, x) (o_alloc (ow s)) ->
   exists p, snd (step s RecvOH) = [EvDelivered p] /\ denotes (fst (step s RecvOH)) p x.
-Proof. intros (ops & ->) Hl Hch Ha. destruct (delivery_denotes ops c x rest Hl Hch Ha) as (p & A & B & _). eauto. Qed.
+Proof. intros (ops & ->) Hl Hch Ha. destruct (delivery_denotes ops c x w rest Hl Hch Ha) as (p & A & B & _). eauto. Qed.
 Lemma I_persist s ops2 p x : reach s -> denotes s p x -> lost (run s ops2) = false -> holds (run s ops2) p -> denotes (run s ops2) p x.
 Proof. intros (ops & ->). apply denotes_persists. Qed.
 Lemma I_call s p x k : reach s -> lost s = false -> denotes s p x ->
@@ -36,20 +36,21 @@ Lemma I_reach s c x k rest : reach s -> lost s = false -> ch_ho s = ToOwner c k 
   snd (step s RecvHO) = [EvHome k (Some x)].
 Proof. intros (ops & ->). apply call_reaches_object. Qed.
 
-Theorem gift_proxy_calls_reach_original :
+Theorem gift_proxy_calls_reach_original_partial :
   forall gops i m,
+    faithful_run tinit gops ->
     let g := trun tinit gops in
     nth_error (lookups g) i = Some m ->
     let x := snd (tr_want m) in
     (* three-party model: the owner resolves the gift's name to the object the giver's proxy designates *)
-    resolve g (tr_url m) = Some (tr_want m) /\
+    resolve_opt g (tr_url m) = Some (tr_want m) /\
     (* two-party model of the connection owner <-> recipient, in ANY reachable state s of it: the owner answers with a
        my-reference for x ... *)
     forall rops, let s := run init rops in lost s = false ->
-    exists c, ch_oh (fst (step s (Send x false))) = ch_oh s ++ [MyRef c false] /\
+    exists c w, ch_oh (fst (step s (Send x false))) = ch_oh s ++ [MyRef c false w] /\
     (* ... whenever a my-reference with that clid is delivered, the recipient gets a proxy p ... *)
-    forall ops2 rest, let s2 := run (fst (step s (Send x false))) ops2 in
-      lost s2 = false -> ch_oh s2 = MyRef c false :: rest ->
+    forall ops2 w2 rest, let s2 := run (fst (step s (Send x false))) ops2 in
+      lost s2 = false -> ch_oh s2 = MyRef c false w2 :: rest ->
       exists p, snd (step s2 RecvOH) = [EvDelivered p] /\
       (* ... and every call through p (k = true) or p sent home (k = false), at any later time while p is held, ... *)
       forall ops3 k, let s3 := run (fst (step s2 RecvOH)) ops3 in
@@ -59,15 +60,15 @@ Theorem gift_proxy_calls_reach_original :
         forall ops4 rest', let s4 := run (fst (step s3 (SendHome p k))) ops4 in
           lost s4 = false -> ch_ho s4 = ToOwner c' k :: rest' -> snd (step s4 RecvHO) = [EvHome k (Some x)].
 Proof.
-  intros gops i m g Hn x. split.
-  { apply lookup_resolves; [apply TInv_reachable | eapply nth_error_In; eauto]. }
+  intros gops i m Gf g Hn x. split.
+  { apply lookup_resolves; [apply TInv_reachable | apply TFaith_reachable; exact Gf | eapply nth_error_In; eauto]. }
   intros rops s Hl.
   assert (R0 : reach s) by (exists rops; reflexivity).
-  destruct (I_send s x R0 Hl) as (c & Hch & Ha & Hl1). exists c. split; [exact Hch|].
+  destruct (I_send s x R0 Hl) as (c & w & Hch & Ha & Hl1). exists c, w. split; [exact Hch|].
   set (s1 := fst (step s (Send x false))) in *. assert (R1 : reach s1) by (apply reach_step; exact R0).
-  intros ops2 rest s2 Hl2 Hch2. assert (R2 : reach s2) by (apply reach_run; exact R1).
+  intros ops2 w2 rest s2 Hl2 Hch2. assert (R2 : reach s2) by (apply reach_run; exact R1).
   assert (Ha2 : In (c, x) (o_alloc (ow s2))) by (apply alloc_run; exact Ha).
-  destruct (I_deliver s2 c x rest R2 Hl2 Hch2 Ha2) as (p & Hev & D). exists p. split; [exact Hev|].
+  destruct (I_deliver s2 c x w2 rest R2 Hl2 Hch2 Ha2) as (p & Hev & D). exists p. split; [exact Hev|].
   set (s2' := fst (step s2 RecvOH)) in *. assert (R2' : reach s2') by (apply reach_step; exact R2).
   intros ops3 k s3 Hl3 Hh3. assert (R3 : reach s3) by (apply reach_run; exact R2').
   pose proof (I_persist s2' ops3 p x R2' D Hl3 Hh3) as D3. fold s3 in D3.
@@ -80,11 +81,11 @@ Qed.
 (* non-vacuity: a gift of object 10 is looked up; on a connection owner <-> recipient that already carries another object
    and a release in flight, the answer is delivered as proxy 1 and a call through it reaches 10 *)
 Example gift_call_example :
-  let g := trun tinit [TExport 0 10 2; TGive (0, 2); TAppDrop (0, 2); TRecvBC] in
+  let g := trun tinit [TExport 0 10 2 true; TGive (0, 2); TAppDrop (0, 2); TRecvBC] in
   (exists m, nth_error (lookups g) 0 = Some m /\ tr_want m = (0, 10)) /\
   let s := run init [Send 7 false; RecvOH; DropProxy 0; HandleRefLost] in
   let s2 := run (fst (step s (Send 10 false))) [RecvHO] in
-  lost s2 = false /\ ch_oh s2 = [MyRef 2 false; Ack 1] /\ snd (step s2 RecvOH) = [EvDelivered 1] /\
+  lost s2 = false /\ ch_oh s2 = [MyRef 2 false (Some 10); Ack 1] /\ snd (step s2 RecvOH) = [EvDelivered 1] /\
   let s3 := fst (step s2 RecvOH) in
   holds s3 1 /\ snd (step (fst (step s3 (SendHome 1 true))) RecvHO) = [EvHome true (Some 10)].
 Proof.
@@ -92,4 +93,46 @@ Proof.
   split; [vm_compute; reflexivity|]. split; [vm_compute; reflexivity|]. split; [vm_compute; reflexivity|].
   split; [|vm_compute; reflexivity].
   exists 1%nat. eexists. split; vm_compute; reflexivity.
+Qed.
+
+(* ---------------------------------------------------------------- the interface lib/Gifts.v ASSUMES of the connection owner <->
+   giver, stated explicitly and PROVED of lib/Refs.v.  A `TExport o x c withurl` of the three-party model stands for: on the
+   connection owner o <-> B (any reachable state of the two-party model) a my-reference whose clid c was allocated for x is
+   delivered; B's proxy is p.  Gifts then records bp_key = (o, c), bp_obj = x, bp_url = the FURL the proxy's tracker
+   carries.  What it relies on:
+     (E1) p designates x, and keeps designating it while held;                                    -- delivery_denotes, denotes_persists
+     (E2) a FURL the tracker carries is x's own (so the name in it was assigned to x);            -- proxy_url_names_designated_object
+     (E3) NOT that there is a FURL: `withurl` is an input of the three-party model, and the two-party model says exactly
+          when it is true (delivered_proxy_url) and that it can be false for a live proxy (live_proxy_without_url). *)
+Theorem export_interface ops c x w rest :
+  let s := run init ops in
+  lost s = false -> ch_oh s = MyRef c false w :: rest -> In (c, x) (o_alloc (ow s)) ->
+  exists p, snd (step s RecvOH) = [EvDelivered p] /\
+    let s' := fst (step s RecvOH) in
+    denotes s' p x /\
+    (forall ops2, lost (run s' ops2) = false -> holds (run s' ops2) p ->
+       denotes (run s' ops2) p x /\ forall y, proxy_url (run s' ops2) p = Some y -> y = x).
+Proof.
+  intros s Hl Hch Ha. destruct (delivery_denotes ops c x w rest Hl Hch Ha) as (p & Hev & D & _). exists p. split; [exact Hev|].
+  cbv zeta. split; [exact D|]. intros ops2 Hl2 Hh.
+  assert (E : fst (step s RecvOH) = run init (ops ++ [RecvOH])) by (rewrite run_app; reflexivity).
+  fold s in D. rewrite E in *.
+  pose proof (denotes_persists (ops ++ [RecvOH]) ops2 p x D Hl2 Hh) as D2. split; [exact D2|].
+  intros y Hy. rewrite <- run_app in *. exact (proxy_url_names_designated_object _ p x y D2 Hy).
+Qed.
+
+(* the two models composed on the history that breaks the introduction: on the connection owner <-> giver the 12-op history
+   leaves the giver with a LIVE proxy that designates object 5 and has no FURL; handed to the third party (the export flag of
+   the three-party model is computed from the two-party state) the introduction fails *)
+Theorem gift_of_recreated_proxy_refuted :
+  let s := run init urlless_ops in
+  exists p, holds s p /\ denotes s p 5 /\ proxy_url s p = None /\
+    trun_events tinit [TExport 0 5 1 (match proxy_url s p with Some _ => true | None => false end); TGive (0, 1); TRecvBC; TAnswer 0]
+      = [EvIntro 1 None (0, 5)].
+Proof.
+  cbv zeta. exists 2. split.
+  { exists 1%nat. eexists. split; vm_compute; reflexivity. }
+  split.
+  { exists 1%nat. eexists. split; [vm_compute; reflexivity|]. split; [vm_compute; reflexivity|]. vm_compute. left. reflexivity. }
+  split; vm_compute; reflexivity.
 Qed.
